@@ -92,6 +92,37 @@ var c05Field = map[string]string{
 	"RespSetContentEncoding": "Content-Encoding", "RespSetTrailer": "Trailer",
 }
 
+// c05FieldOf: the field that carries the slot; generic slots are named <Side><AddVariant>:<Name>.
+func c05FieldOf(slot string) string {
+	if i := strings.IndexByte(slot, ':'); i >= 0 {
+		return slot[i+1:]
+	}
+	return c05Field[slot]
+}
+
+// c05AddSpecial applies a slot of the form <Side><AddVariant>:<Name>.
+func c05AddSpecial(slot string, in []byte, add func(k, v string), addK func(k []byte, v string), addV func(k string, v []byte), addKV func(k, v []byte)) bool {
+	i := strings.IndexByte(slot, ':')
+	if i < 0 {
+		return false
+	}
+	name := slot[i+1:]
+	variant := strings.TrimPrefix(strings.TrimPrefix(slot[:i], "Req"), "Resp")
+	switch variant {
+	case "Add":
+		add(name, string(in))
+	case "AddBytesK":
+		addK([]byte(name), string(in))
+	case "AddBytesV":
+		addV(name, in)
+	case "AddBytesKV":
+		addKV([]byte(name), in)
+	default:
+		return false
+	}
+	return true
+}
+
 // prefix the setter itself puts before the input inside the field value
 var c05ValuePrefix = map[string]string{
 	"ReqSetBoundary": "multipart/form-data; boundary=",
@@ -100,7 +131,7 @@ var c05ValuePrefix = map[string]string{
 var c05Defaults = map[string]bool{
 	"Host": true, "User-Agent": true, "Content-Type": true, "Content-Length": true, "Transfer-Encoding": true,
 	"Trailer": true, "Server": true, "Date": true, "Connection": true, "X-Before": true, "X-After": true,
-	"Authorization": false,
+	"Authorization": false, "Cookie": false, "Set-Cookie": false,
 }
 
 // c05Build builds the message with `in` in the slot and serialises it. rejected = the sender
@@ -258,7 +289,9 @@ func c05Build(v *c05Vec, in []byte, route string, nonorm bool) (wire []byte, rej
 			req.URI().SetUsername(s)
 			req.URI().SetPassword("pw")
 		default:
-			return nil, true, "c05: unknown slot " + v.Slot
+			if !c05AddSpecial(v.Slot, in, h.Add, h.AddBytesK, h.AddBytesV, h.AddBytesKV) {
+				return nil, true, "c05: unknown slot " + v.Slot
+			}
 		}
 		req.Header.Set("X-After", "a")
 		if chunked {
@@ -338,7 +371,9 @@ func c05ApplyResp(resp *Response, v *c05Vec, in []byte) (rejected bool, why stri
 			return true, "SetTrailer: " + err.Error()
 		}
 	default:
-		return true, "c05: unknown slot " + v.Slot
+		if !c05AddSpecial(v.Slot, in, h.Add, h.AddBytesK, h.AddBytesV, h.AddBytesKV) {
+			return true, "c05: unknown slot " + v.Slot
+		}
 	}
 	resp.Header.Set("X-After", "a")
 	if chunked {
@@ -589,7 +624,7 @@ func TestVerifC05Serialize(t *testing.T) {
 				stats["rejected_by_sender"+bind]++
 				return
 			}
-			field := c05Field[v.Slot]
+			field := c05FieldOf(v.Slot)
 			// a client rebuilds the request target and Host from the URI it derives from the Host
 			// value and the request URI: for inputs feeding that URI only the structure is judged
 			feedsURI := c05URISlots[v.Slot] || field == "Host" || v.Kind == "uri"
